@@ -37,12 +37,28 @@ def mkcase(mi, tk):
     return c
 
 
+_SN = [0]
+BAD_LINES = ['note_on channel=5 note=abc', 'no_such_type channel=3 time=9', 'control_change control=17 value', 'sysex data=(1,2,3 time=4', 'pitchwheel channel=3 pitch=99999',
+             'note_off channel=7 note=12 velocity=1 time=', 'songpos pos=5 pos', 'program_change channel=9 program=1 foo=2']
+
+
+def str_noise():
+    """a line that is refused after some of its words were read, caught by its caller: the line parsed next must not notice"""
+    import mido
+    _SN[0] += 1
+    try:
+        mido.Message.from_str(BAD_LINES[_SN[0] % len(BAD_LINES)])
+    except Exception:  # noqa: BLE001
+        pass
+
+
 def impl_str(case):
     import mido
     mi, tk = CASES[tuple(case)]
     name, kw, _ = canon.kwargs_of(mi)
     t = time_py(tk)
     fail = None
+    str_noise()
     try:
         m = mido.Message(name, time=t, **kw)
         s, r = str(m), repr(m)
@@ -115,6 +131,7 @@ def impl_parse(case):
     except Exception as e:  # noqa: BLE001
         want = None
         fail = ('grammar-oracle', 'the grammar oracle raised %r on %r' % (e, txt))
+    str_noise()
     try:
         m = mido.parse_string(txt)
         out = [0] + canon.msg_ints(m) + canon_time(m.time)
@@ -210,7 +227,7 @@ def norm_out(tag, out):
 def job(j):
     tag, comp, cases = j
     if tag == 'str':
-        return tag, core.eval_cases(comp, cases, IMPL[tag])
+        return tag, core.eval_cases(comp, cases, IMPL[tag], repeat=60)
     rec = {'n': len(cases), 'dis': [], 'fail': [], 'dist': {}, 'hashes': set(), 'ndis': 0, 'nfail': 0}
     ios = []
     for c in cases:
@@ -322,9 +339,31 @@ def run(out):
             for ln in lens:
                 mf.tracks.append(mido.MidiTrack(rng.choice(metas + some) for _ in range(ln)))
             objs.append(mf)
-    for x in objs:
+    def edit_in_place(x):
+        """the object changed where it stands: same class, same number of tracks and messages"""
+        try:
+            if isinstance(x, mido.MidiFile):
+                for tr in x.tracks:
+                    for i, m in enumerate(tr):
+                        tr[i] = m.copy(time=m.time + 3)
+                if len(x.tracks) >= 2 and len(x.tracks[0]) == len(x.tracks[1]):
+                    x.tracks.reverse()
+                if x.tracks and x.tracks[0]:
+                    x.tracks[0][0] = mido.Message('control_change', control=7, value=99)
+            elif isinstance(x, mido.MidiTrack):
+                for i, m in enumerate(x):
+                    x[i] = m.copy(time=m.time + 3)
+            else:
+                x.time += 3
+        except Exception:  # noqa: BLE001
+            pass
+        return x
+    objs = objs + [None] * len(objs)         # every object once more, after it was edited where it stands
+    half = len(objs) // 2
+    for idx in range(len(objs)):
+        x = objs[idx] if idx < half else edit_in_place(objs[idx - half])
         out.evaluations += 1
-        kind = type(x).__name__ + (':%d' % len(x) if isinstance(x, mido.MidiTrack) else '')
+        kind = type(x).__name__ + (':%d' % len(x) if isinstance(x, mido.MidiTrack) else '') + (' (edited)' if idx >= half else '')
         out.count('repr:' + kind)
         try:
             y = eval(repr(x), dict(ns))
